@@ -57,6 +57,18 @@ type ZDeep struct {
 	Extra string
 }
 
+// three levels of by-value embedding with several fields in the innermost struct
+type ZCore struct{ First, Second, Third string }
+type ZN2 struct{ ZCore }
+type ZN1 struct {
+	ZN2
+	Mid string
+}
+type ZN0 struct {
+	ZN1
+	Top string
+}
+
 type ZOuter struct {
 	ZBase
 	*ZPEmb
@@ -82,6 +94,8 @@ type ZOuter struct {
 	SL      ZShadowLast
 	DP      ZDeep
 	Word    string
+	Nest    ZN0
+	Win     []string // a window on a longer backing array: cap > len
 	private string
 }
 
@@ -109,6 +123,8 @@ func zooRoot(variant int) interface{} {
 		SL:    ZShadowLast{ZBase: ZBase{ID: 2, Title: "sl-base-title"}, Title: "sl-outer-title"},
 		DP:    ZDeep{ZShadowFirst: ZShadowFirst{Title: "dp-shadow-title", ZBase: ZBase{ID: 3, Title: "dp-base-title"}}, Extra: "x"},
 		Word:  "hello",
+		Nest:  ZN0{ZN1: ZN1{ZN2: ZN2{ZCore: ZCore{First: "one", Second: "two", Third: "three"}}, Mid: "mid"}, Top: "top"},
+		Win:   []string{"w0", "w1", "w2", "SECRET-1", "SECRET-2"}[:3],
 	}
 	switch variant {
 	case 0:
